@@ -7,7 +7,7 @@
 From Coq Require Import ZArith List Bool.
 Import ListNotations.
 Require Import Grist.Model.Sched Grist.Proofs.Sched_proofs Grist.Proofs.Sched_conf_proofs
-  Grist.Proofs.Sched_engine_proofs.
+  Grist.Proofs.Sched_engine_proofs Grist.Model.SchedCode GristGen.Sched_gen Grist.Proofs.Sched_bridge.
 Open Scope Z_scope.
 
 (* Recalculation terminates whatever the dependency graph: no infinite run, never stuck, and the two
@@ -66,6 +66,43 @@ Theorem acyclic_cells_normal_handlers : forall P s fin c,
   cre_strict_prog P -> wf_init P s -> complete_run P s fin ->
   ~ reaches_cycle P (val s) c -> exists n, scr P (val s) n c = Some (val fin c).
 Proof. exact not_reaching_cycle_normal. Qed.
+
+(* ---- the code of /repo, regenerated on every run (GristGen.Sched_gen, harness/sk2v.py), is the model's code ------ *)
+
+(* the row loop of Engine._recompute_step = phase one of the model's (multi-row) access: clean required rows are
+   skipped, the first dirty one (ascending) raises OrderError *)
+Theorem C18_code_row_loop_is_require_rows : forall col rs k vl isd,
+  eval vl isd (require_rows col rs k) =
+  match scan_required gen_nested_required rs (fun r => isd (col, r)) with
+  | Some r => ONeed (col, r)
+  | None => eval vl isd k
+  end.
+Proof. exact gen_scan_is_require_rows. Qed.
+
+Theorem C18_code_row_action : forall a b c d e f g, gen_row_action a b c d e f g = model_row_action a b c d e f g.
+Proof. exact gen_row_action_is_model. Qed.
+
+(* a required, locked cell is evaluated with cycle=True and then holds CircularRefError ([cycle] transition) *)
+Theorem C18_code_cycle_flag : forall locked,
+  gen_row_action true false true true false true locked = REval locked /\
+  gen_row_action false false true true false true locked = REval false.
+Proof. exact gen_cycle_flag. Qed.
+
+Theorem C18_code_cycle_value : forall P s c s', exec P (LCycle c) s = Some s' -> val s' c = gen_cycle_value.
+Proof. exact model_cycle_stores_gen_value. Qed.
+
+(* BaseColumn.get_cell_value: a stored CircularRefError is re-raised unchanged to a reading formula, other errors
+   wrapped; a trigger cell re-run with restore=True first sees its previous input *)
+Theorem C18_code_get_cell_value : forall r h c, gen_cell_read r h c = model_cell_read r h c.
+Proof. exact gen_cell_read_is_model. Qed.
+
+(* Engine._use_node records the dependency edge before it brings the accessed node up to date *)
+Theorem C18_code_use_node : gen_use_node = model_use_node /\ edge_before_recompute gen_use_node = true.
+Proof. split; [exact gen_use_node_is_model | exact gen_edge_before_recompute]. Qed.
+
+(* the empty-row-list quirk behind the known finding C18-empty-recordset-requires-whole-column is in the code *)
+Theorem C18_code_empty_requirement_means_all_rows : gen_row_action false true true true false false false = ROrder.
+Proof. exact gen_empty_requirement_means_all_rows. Qed.
 
 (* the notions fit together: a cell on a cycle reaches a cycle; an evaluable cell does not *)
 Theorem on_cycle_reaches : forall P v0 c, on_cycle P v0 c -> reaches_cycle P v0 c.
